@@ -130,7 +130,7 @@ func init() {
 			return nil
 		},
 		"verifYield": func(p *Path, th *Thread, fr *Frame, args []Value) Value {
-			p.sched.syncPoint(th, nil)
+			p.sched.yield(th)
 			return nil
 		},
 		"verifIsSymbolicRun": func(p *Path, th *Thread, fr *Frame, args []Value) Value {
@@ -197,7 +197,7 @@ func init() {
 			return Slice{a: []Value{}}
 		},
 		"runtime.Gosched": func(p *Path, th *Thread, fr *Frame, args []Value) Value {
-			p.sched.syncPoint(th, nil)
+			p.sched.yield(th)
 			return nil
 		},
 		"(*strings.Builder).WriteString": func(p *Path, th *Thread, fr *Frame, args []Value) Value {
